@@ -1040,7 +1040,7 @@ class Engine:
         if name in ('len', 'abs', 'min', 'max', 'isinstance', 'hasattr', 'range',
                     'callable', 'getattr', 'enumerate', 'zip', 'sum', 'next',
                     'iter', 'reversed', 'sorted', 'round', 'divmod', 'pow',
-                    'print', 'id', 'repr', 'any', 'all', 'issubclass', 'super'):
+                    'print', 'id', 'repr', 'any', 'all', 'issubclass', 'super', 'hash'):
             return V('func', py=('builtin', name))
         if name == '_libsc3':
             return V('module', py='<libsc3>')
